@@ -84,6 +84,10 @@ type Exec struct {
 	harnessPkg        *ssa.Package
 	bypass            map[*ssa.Function]bool
 	onceDone          map[Node]bool
+	syncMaps          map[Node]*MapObj
+	goQueue           []func() // goroutines started and not yet run (sched.go)
+	inGoroutine       int
+	allowGo           bool
 	lastNow           *Term
 	choiceVals        map[string]uint64
 	scratch           bool
@@ -832,13 +836,20 @@ func (ex *Exec) exec(fr *frame, ins ssa.Instruction) {
 			fr.locals[ins] = IntV{tf.Not(x.(IntV).T)}
 		case token.ARROW:
 			c, _ := x.(ChanV)
-			if c.C == nil || len(c.C.queue) == 0 {
-				panic(unsupported{"blocking channel receive at " + ex.posStr(ins.Pos())})
+			for c.C == nil || (len(c.C.queue) == 0 && !c.C.closed) {
+				ex.blocked("channel receive", ins.Pos())
 			}
-			v := c.C.queue[0]
-			c.C.queue = c.C.queue[1:]
+			var v Value
+			okv := tf.True
+			if len(c.C.queue) > 0 {
+				v = c.C.queue[0]
+				c.C.queue = c.C.queue[1:]
+			} else { // closed and drained
+				v = ex.zero(ins.X.Type().Underlying().(*types.Chan).Elem())
+				okv = tf.False
+			}
 			if ins.CommaOk {
-				fr.locals[ins] = TupleV{v, BoolV{tf.True}}
+				fr.locals[ins] = TupleV{v, BoolV{okv}}
 			} else {
 				fr.locals[ins] = v
 			}
@@ -854,7 +865,15 @@ func (ex *Exec) exec(fr *frame, ins ssa.Instruction) {
 		pos := ins.Pos()
 		fr.defers = append(fr.defers, func() { ex.callFunc(fnv, args, pos) })
 	case *ssa.Go:
-		panic(unsupported{"go statement at " + ex.posStr(ins.Pos())})
+		// cooperative schedule (see sched.go): the new goroutine is queued; it runs to completion when the
+		// spawning code blocks on a channel operation, or at verifrt.Yield / the end of the harness
+		if !ex.allowGo {
+			panic(unsupported{"go statement at " + ex.posStr(ins.Pos())})
+		}
+		cc := ins.Call
+		fnv, args := ex.prepareCall(fr, &cc)
+		pos := ins.Pos()
+		ex.goQueue = append(ex.goQueue, func() { ex.callFunc(fnv, args, pos) })
 	case *ssa.ChangeInterface:
 		fr.locals[ins] = ex.eval(fr, ins.X)
 	case *ssa.ChangeType:
@@ -977,34 +996,47 @@ func (ex *Exec) exec(fr *frame, ins ssa.Instruction) {
 	case *ssa.Send:
 		// sequential model: a send on a full (or unbuffered) channel would block forever
 		c := ex.eval(fr, ins.Chan).(ChanV)
-		if c.C == nil || len(c.C.queue) >= c.C.capacity {
-			panic(unsupported{"blocking channel send at " + ex.posStr(ins.Pos())})
+		if c.C != nil && c.C.closed {
+			ex.fail("panic", ex.posStr(ins.Pos()), "send on closed channel")
+		}
+		for c.C == nil || len(c.C.queue) >= c.C.capacity {
+			ex.blocked("channel send", ins.Pos())
 		}
 		c.C.queue = append(c.C.queue, ex.eval(fr, ins.X))
 	case *ssa.Select:
 		// only non-blocking selects (with default) have a sequential meaning; states are taken in order
-		if ins.Blocking {
-			panic(unsupported{"blocking select at " + ex.posStr(ins.Pos())})
-		}
+		// the first ready state in source order is taken (one of the choices the runtime may make); a blocking
+		// select with no ready state lets queued goroutines run (sched.go) and is a deadlock when there are none
 		idx := -1
 		var recv Value
 		recvOK := false
-		for i, st := range ins.States {
-			c, _ := ex.eval(fr, st.Chan).(ChanV)
-			if c.C == nil {
-				continue
+		for {
+			for i, st := range ins.States {
+				c, _ := ex.eval(fr, st.Chan).(ChanV)
+				if c.C == nil {
+					continue
+				}
+				if st.Dir == types.SendOnly && !c.C.closed && len(c.C.queue) < c.C.capacity {
+					c.C.queue = append(c.C.queue, ex.eval(fr, st.Send))
+					idx = i
+					break
+				}
+				if st.Dir == types.RecvOnly && len(c.C.queue) > 0 {
+					recv, recvOK = c.C.queue[0], true
+					c.C.queue = c.C.queue[1:]
+					idx = i
+					break
+				}
+				if st.Dir == types.RecvOnly && c.C.closed {
+					recv, recvOK = ex.zero(st.Chan.Type().Underlying().(*types.Chan).Elem()), false
+					idx = i
+					break
+				}
 			}
-			if st.Dir == types.SendOnly && len(c.C.queue) < c.C.capacity {
-				c.C.queue = append(c.C.queue, ex.eval(fr, st.Send))
-				idx = i
+			if idx >= 0 || !ins.Blocking {
 				break
 			}
-			if st.Dir == types.RecvOnly && len(c.C.queue) > 0 {
-				recv, recvOK = c.C.queue[0], true
-				c.C.queue = c.C.queue[1:]
-				idx = i
-				break
-			}
+			ex.blocked("select", ins.Pos())
 		}
 		tv := TupleV{IntV{tf.Const(64, uint64(int64(idx)))}, BoolV{tf.Bool(recvOK)}}
 		for i, st := range ins.States {
@@ -1786,6 +1818,16 @@ func (ex *Exec) builtin(b *ssa.Builtin, args []Value, argTypes []types.Type) Val
 		return nil
 	case "recover":
 		return IfaceV{}
+	case "close":
+		c, _ := args[0].(ChanV)
+		if c.C == nil {
+			ex.fail("panic", ex.posStr(ex.curPos), "close of nil channel")
+		}
+		if c.C.closed {
+			ex.fail("panic", ex.posStr(ex.curPos), "close of closed channel")
+		}
+		c.C.closed = true
+		return nil
 	case "delete":
 		m := args[0].(MapV)
 		if m.M != nil {
